@@ -60,7 +60,10 @@ inline bool operator<(const Obs& a, const Obs& b) { return std::tie(a.off, a.idx
 std::set<Obs> g_starts;                         // first probe of a VM
 std::set<std::pair<Obs, Obs>> g_edges;          // consecutive probes of one VM
 std::set<std::pair<Obs, unsigned long>> g_ends; // last probe of a VM that ended, stack index at the end
+std::set<std::pair<Obs, unsigned long>> g_stackerr; // last probe before the VM's own stack check fired > reported index
 std::map<const ScriptVM*, Obs> g_last;
+Obs g_lastObs{ 0, 0, 0 };
+bool g_haveLast = false;
 unsigned long g_nprobe = 0, g_stale = 0;
 unsigned long g_budget = 0;
 const opval_t* g_base = nullptr;
@@ -90,7 +93,40 @@ void probe(const ScriptVM* vm, intptr_t offset, uintptr_t stackIndex, size_t, bo
         ++g_stale;                             // address reused by a new VM / unknown predecessor: no edge recorded
     }
     g_last[vm] = cur;
+    g_lastObs = cur; g_haveLast = true;
     if (g_budget && g_nprobe > g_budget) throw Budget();
+}
+
+// what the current program's answer line holds so far; written out by the sanitizer death callback as well,
+// so that the transitions made before a crash can still be judged against the abstract VM
+std::string g_static;
+std::string g_runs;
+bool g_inProgram = false;
+
+std::string dynamicPart()
+{
+    std::ostringstream o;
+    auto obs = [](const Obs& x) { return std::to_string(x.off) + ":" + std::to_string(x.idx) + ":" + std::to_string(x.marked); };
+    o << " starts=";
+    { bool first = true; for (auto& p : g_starts) { if (!first) o << ','; first = false; o << obs(p); } }
+    o << " edges=";
+    { bool first = true; for (auto& p : g_edges) { if (!first) o << ','; first = false; o << obs(p.first) << '>' << obs(p.second); } }
+    o << " ends=";
+    { bool first = true; for (auto& p : g_ends) { if (!first) o << ','; first = false; o << obs(p.first) << '>' << p.second; } }
+    o << " stackerr=";
+    { bool first = true; for (auto& p : g_stackerr) { if (!first) o << ','; first = false; o << obs(p.first) << '>' << p.second; } }
+    return o.str();
+}
+
+extern "C" void __sanitizer_set_death_callback(void (*)());
+
+void onDeath()
+{
+    if (!g_inProgram) return;
+    g_inProgram = false;
+    std::string last = "none";
+    if (g_haveLast) last = std::to_string(g_lastObs.off) + ":" + std::to_string(g_lastObs.idx) + ":" + std::to_string(g_lastObs.marked);
+    say(g_static + dynamicPart() + " runs=" + g_runs + "crash nprobe=" + std::to_string(g_nprobe) + " stale=" + std::to_string(g_stale) + " nwarn=0 crash=" + last);
 }
 
 std::string unhex(const std::string& h)
@@ -162,6 +198,7 @@ size_t countLines(const std::string& s) { return size_t(std::count(s.begin(), s.
 int main()
 {
     verif::now_ms = &clockFn;
+    __sanitizer_set_death_callback(&onDeath);
     std::vector<std::string> t;
     while (readTokens(t)) {
         if (t.size() < 2 || t[0] != "prog") { say("bad-op"); continue; }
@@ -175,7 +212,7 @@ int main()
         verif::vm_probe = nullptr;
         clearStreams();
         freshContext();
-        g_starts.clear(); g_edges.clear(); g_ends.clear(); g_last.clear(); g_nprobe = 0; g_stale = 0; g_budget = 0;
+        g_starts.clear(); g_edges.clear(); g_ends.clear(); g_stackerr.clear(); g_last.clear(); g_haveLast = false; g_static.clear(); g_runs.clear(); g_nprobe = 0; g_stale = 0; g_budget = 0;
         const ProgramScript* s = nullptr;
         try {
             imemstream stream(src.data(), src.size());
@@ -185,7 +222,11 @@ int main()
             if (dynamic_cast<const ParseException::Base*>(&e)) k = "ParseError";
             else if (dynamic_cast<const CompileException::Base*>(&e)) k = "CompileError";
             else if (dynamic_cast<const ScriptExceptionBase*>(&e)) k = "ScriptError";
-            say("compile-error " + k);
+            std::string w = e.what() ? e.what() : "";
+            std::string msg = g_err.str();
+            for (char& c : w) if (c < 33 || c > 126) c = '_';
+            for (char& c : msg) if (c < 33 || c > 126) c = '_';
+            say("compile-error " + k + " " + w.substr(0, 120) + " " + msg.substr(0, 300));
             continue;
         }
         if (!s || !s->IsCompileSuccess()) { say("compile-error NotLoaded"); continue; }
@@ -225,6 +266,7 @@ int main()
             o << long(cb.m_TryStartCodePos - base) << '-' << long(cb.m_TryEndCodePos - base) << ':' << labelOffsets(cb.m_StateScript, base);
         }
 
+        g_static = o.str(); g_inProgram = true;
         // ---- dynamic side: every entry of the main label table (and the start of the script)
         std::vector<std::string> entries = labelNames(s->m_State);
         entries.insert(entries.begin(), "");
@@ -260,9 +302,14 @@ int main()
                 for (int f = 0; f < 6; ++f) { g_clock += 1000; g_ctx->Execute(); }
             } catch (const std::exception& e) {
                 outcome = excKind(e);
+                if (auto* se = dynamic_cast<const ScriptVMErrors::StackError*>(&e)) {
+                    // the VM's per-instruction check `index >= stack size` fired (before the probe)
+                    g_stackerr.insert(std::make_pair(g_haveLast ? g_lastObs : Obs{ -2, 0, 0 }, (unsigned long)se->GetStack()));
+                }
             }
             if (k) runs << ';';
             runs << (entries[k].empty() ? "-" : entries[k]) << ':' << outcome;
+            g_runs = runs.str() + ";";
             if (outcome != "ok") {
                 // an aborted VM cannot be resumed sensibly: start over with a fresh context and the same
                 // source (same bytes; the static part of the dump was taken from the first compilation)
@@ -282,13 +329,8 @@ int main()
         }
         verif::vm_probe = nullptr;
         warnLines = countLines(g_warn.str());
-        auto obs = [](const Obs& x) { return std::to_string(x.off) + ":" + std::to_string(x.idx) + ":" + std::to_string(x.marked); };
-        o << " starts=";
-        { bool first = true; for (auto& p : g_starts) { if (!first) o << ','; first = false; o << obs(p); } }
-        o << " edges=";
-        { bool first = true; for (auto& p : g_edges) { if (!first) o << ','; first = false; o << obs(p.first) << '>' << obs(p.second); } }
-        o << " ends=";
-        { bool first = true; for (auto& p : g_ends) { if (!first) o << ','; first = false; o << obs(p.first) << '>' << p.second; } }
+        g_inProgram = false;
+        o << dynamicPart();
         o << " runs=" << runs.str() << " nprobe=" << g_nprobe << " stale=" << g_stale << " nwarn=" << warnLines;
         say(o.str());
         try { g_ctx->GetDirector().Reset(); } catch (const std::exception&) {}
